@@ -79,6 +79,7 @@ func (c *c14) topo(f []string) string {
 	masters := []string{hx.NodeAddr(0), hx.NodeAddr(1)}
 	reps := []string{"r0:1", "r1:1", "r2:1"}
 	rig := hx.NewRig(2, strat, reps...)
+	defer hx.DropScopes(rig.ScopeName())
 	layout := func(assign string) (*redis.RespValue, bool) {
 		var sb strings.Builder
 		fmt.Fprintf(&sb, "%040d %s@1 master - 0 0 1 connected 0-8191\n", 1, masters[0])
